@@ -152,7 +152,12 @@ func newRtWorld(c *mon.Case, state, withCmp, retry bool, behave rtBehaviour) *rt
 	if state {
 		var cmp func(a, b int) bool
 		if withCmp {
-			cmp = func(a, b int) bool { return a == b }
+			if c.Index%2 == 0 {
+				cmp = func(a, b int) bool { return a == b }
+			} else {
+				// a custom equivalence: distinguishable states {1,2}, {3,4}, ... compare as equal (0 stays alone)
+				cmp = func(a, b int) bool { return (a+1)/2 == (b+1)/2 }
+			}
 		}
 		w.src = routine.NewStateRoutineContainer[int](cmp, opts...)
 		w.src.SetStateRoutine(func(ctx context.Context, st int) error { return w.run(ctx, st) })
